@@ -5,6 +5,7 @@ by their definitions (squared / absolute difference with sign facts) or left uni
 """
 from __future__ import annotations
 
+import ast
 import itertools
 from fractions import Fraction
 from typing import Any, Callable, Dict, List, Optional, Tuple
@@ -347,3 +348,104 @@ def run_weight_shapes(ctx: Ctx) -> None:
                     return False, f"C={C}: weight shape {desc} differs from the expanded weight"
             return True, ""
         _guard(ctx, "T16.weight-shapes", f"C={C}", fT, f"tversky weight shapes C={C}", th)
+
+
+def run_module_functional(ctx: Ctx) -> None:
+    """Loss classes evaluate the functional form they stand for (with default options)."""
+    import re
+    prog = ctx.prog
+    L = "deepali.losses.functional"
+    LI = "deepali.losses.image"
+    ctx.rule("T16.module-functional", "each pairwise image loss class, constructed with default options and called on (source, target, mask), "
+                                      "reaches the same functional with the same effective arguments as calling the functional form it is "
+                                      "named after / documented to implement ('See :func:`...functional.X`'): e.g. NMI() evaluates nmi_loss, "
+                                      "i.e. mi_loss(normalized=True)")
+    fmod = prog.module(L)
+    funcs = {n: f for n, f in fmod.functions.items() if not n.startswith("_") and f.module is fmod}
+    table = {"L1ImageLoss": "mae_loss", "L2ImageLoss": "mse_loss", "HuberImageLoss": "huber_loss", "SmoothL1ImageLoss": "smooth_l1_loss"}
+    pairs = []
+    for name, ci in sorted(prog.module(LI).classes.items()):
+        fw = prog.find_method(ci, "forward")
+        if fw is None or name.startswith("_") or name in ("PatchwiseImageLoss",):
+            continue
+        target = None
+        init = prog.find_method(ci, "__init__")
+        docs = [ast.get_docstring(ci.node) or ""] + ([ast.get_docstring(init.node) or ""] if init is not None and init.cls is ci else [])
+        for d in docs:
+            m = re.search(r"functional\.([a-z0-9_]+)", d)
+            if m and m.group(1) in funcs:
+                target = m.group(1)
+        if target is None and name.lower() + "_loss" in funcs:
+            target = name.lower() + "_loss"
+        if target is None:
+            target = table.get(name)
+        if target is not None and len(prog.find_method(ci, "forward").params) >= 3:
+            pairs.append((ci, target))
+
+    def record_run(run, exclude: Optional[str]):
+        calls = []
+        reset_relations()
+        facts = fresh_facts()
+        it = make_interp(ctx)
+        for n, f in funcs.items():
+            if n == exclude or n in ("masked_loss", "reduce_loss", "elementwise_loss"):
+                continue
+
+            def rec(interp, args, kwargs, f=f, n=n):
+                b = dict(zip(f.pos_params, args))
+                b.update(kwargs)
+                a = f.node.args
+                pos = a.posonlyargs + a.args
+                for p_, d_ in zip(pos[len(pos) - len(a.defaults):], a.defaults):
+                    if p_.arg not in b:
+                        b[p_.arg] = interp.eval(d_, tae.Frame(f.module))
+                for p_, d_ in zip(a.kwonlyargs, a.kw_defaults):
+                    if d_ is not None and p_.arg not in b:
+                        b[p_.arg] = interp.eval(d_, tae.Frame(f.module))
+                calls.append((n, b))
+                return STensor.from_flat([Rat.atom(f"out_{n}")], [])
+            it.overrides[f.key] = rec
+        x, y, p = _inputs(facts)
+        m = STensor.symbols("m", [1, 1] + list(SHAPE[2:]))
+        run(it, x, y, m)
+        return calls
+
+    def same_call(a, b) -> Tuple[bool, str]:
+        if a[0] != b[0]:
+            return False, f"reaches {a[0]}() instead of {b[0]}()"
+        for k in sorted(set(a[1]) | set(b[1])):
+            va, vb = a[1].get(k), b[1].get(k)
+            if isinstance(va, STensor) or isinstance(vb, STensor):
+                if not (isinstance(va, STensor) and isinstance(vb, STensor) and teq(va, vb)):
+                    return False, f"{a[0]}() receives a different '{k}'"
+            elif va != vb and not (va is None and vb is None):
+                try:
+                    if to_rat(va).equals(to_rat(vb)):
+                        continue
+                except Exception:
+                    pass
+                return False, f"{a[0]}() receives {k}={va!r}, the functional form passes {k}={vb!r}"
+        return True, ""
+
+    for ci, target in pairs:
+        fw = prog.find_method(ci, "forward")
+        ctx.fn(fw)
+
+        def th(ci=ci, target=target):
+            got = record_run(lambda it, x, y, m: it.call_value(it.new(ci), [x, y], {"mask": m}), None)
+            if not got:
+                return False, f"{ci.name}.forward() reaches no functional of losses.functional"
+            ft = funcs[target]
+            if got[0][0] == target:
+                # the module calls its functional directly: compare with a default call of that functional
+                mk = {"weight": None} if "mask" not in ft.params and "weight" in ft.params else {}
+                want = record_run(lambda it, x, y, m: it.overrides[ft.key](it, [x, y], {("mask" if "mask" in ft.params else "weight"): m}), None)
+            else:
+                want = record_run(lambda it, x, y, m: it.call(ft, x, y, **{("mask" if "mask" in ft.params else "weight"): m}), target)
+            if not want:
+                return False, f"{target}() reaches no other functional (adaptor)"
+            ok, why = same_call(got[0], want[0])
+            if not ok:
+                return False, f"{ci.name}() {why} — the class does not evaluate {target}()"
+            return True, ""
+        _guard(ctx, "T16.module-functional", ci.name, fw, f"class={ci.name} functional={target}", th)
